@@ -199,7 +199,7 @@ TABLE = {
         ("unknown-method-falls-through", VE, "        raise ValueError(f\"Unexpected method: {method!r}\")", "        pass", V, "MPT-rank"),
     ],
     "C12": [
-        ("xopen-no-xz", UT, "    if str(path).endswith(\".xz\"):\n        return lzma.open(path, mode)", "    pass", V, "SIB-10"),
+        ("xopen-no-xz", UT, "    if str(path).endswith(\".xz\"):\n        return lzma.open(path, mode, **kwargs)", "    pass", V, "SIB-10"),
         ("lod-read-csv-ignores-sep", LO, "            rows = list(csv.reader(f, dialect=\"unix\", delimiter=sep))", "            rows = list(csv.reader(f, dialect=\"unix\"))", V, "FWD-live"),
         ("read_pickle-plain-open", DF, "        with util.xopen(path, \"rb\") as f:\n            return cls(pickle.load(f))", "        with open(path, \"rb\") as f:\n            return cls(pickle.load(f))", V, "TNT-route"),
         ("write_csv-path-to-arrow", DF, "        with util.xopen(path, \"wb\") as f:\n            csv.write_csv(table, f,", "        if True:\n            csv.write_csv(table, path,", V, "TNT-route"),
@@ -273,6 +273,7 @@ TABLE = {
         ("pull_str-raw-early-return", DT, "    if na.all(): return out.as_string()", "    if na.all(): return out", V, "MPT-5"),
     ],
     "C20": [
+        ("geojson-render-through-modify", GE, "            self = self.copy()\n            self[\"geometry\"] = Vector.fast(geometry, object)", "            self = self.modify(geometry=Vector.fast(geometry, object))", V, "GRD-empty"),
         ("dtype-label-memo-by-num", VE, "            return \"string\"\n        return str(self.dtype)", "            return \"string\"\n        if self.dtype.num not in TYPE_CONVERSIONS_LABELS:\n            TYPE_CONVERSIONS_LABELS[self.dtype.num] = str(self.dtype)\n        return TYPE_CONVERSIONS_LABELS[self.dtype.num]\n\nTYPE_CONVERSIONS_LABELS = {}\n\nclass _Unused:\n    pass\n\n    def _unused(self):\n        return None", V, "MEMO-proj"),
         ("geojson-no-truncate_width", GE, "    def to_string(self, *, max_rows=None, max_width=None, truncate_width=None):", "    def to_string(self, *, max_rows=None, max_width=None):", V, "FWD-override"),
         ("null-geometry-unguarded", GE, "            geometry = [f\"<{x['type']}>\" if x is not None else str(x) for x in self.geometry]", "            geometry = [f\"<{x['type']}>\" for x in self.geometry]", V, "GRD-null"),
@@ -281,7 +282,7 @@ TABLE = {
         ("cells-unpadded", DF, "        columns = {colname: util.upad(\n            [colname] +", "        columns = {colname: list(\n            [colname] +", V, "SIB-pad"),
         ("no-footer", DF, "        if max_rows < self.nrow:\n            rows_to_print.append(f\"... {self.nrow} rows total\")\n", "", V, "SIB-pad"),
         ("rows-budget-off-by-one", DF, "        n = min(self.nrow, max_rows)\n        columns = {colname: util.upad(", "        n = min(self.nrow, max_rows - 1)\n        columns = {colname: util.upad(", V, "SIB-pad"),
-        ("geojson-cuts-rows-first", GE, "            self = self.modify(geometry=Vector.fast(geometry, object))", "            self = self.modify(geometry=Vector.fast(geometry, object)).head(max_rows or 100)", V, "FWD-override"),
+        ("geojson-cuts-rows-first", GE, "            self = self.copy()\n            self[\"geometry\"] = Vector.fast(geometry, object)", "            self = self.copy().head(max_rows or 100)\n            self[\"geometry\"] = Vector.fast(geometry[:self.nrow], object)", V, "FWD-override"),
         ("separator-len", DF, "            column.insert(2, \"─\" * util.ulen(column[0]))", "            column.insert(2, \"─\" * len(column[0]))", V, "SIB-pad"),
     ],
 }
